@@ -1606,8 +1606,11 @@ def _run_index_pspace(cfg, recipe, rep):
             if st2 == 'exc':
                 rep.bad(esite, 'raises:' + type(y).__name__,
                         'x%s on an element of %s raises %r' % (lab, cfg['row'], y))
-            elif st == 'ok' and not (_eq(y.space, R) and y in R):
-                rep.bad(esite, 'space_differs', 'x%s is not an element of space%s' % (lab, lab))
+            elif st == 'ok' and not _same_pspace(y.space, R):
+                # compared by factors and weighting values: sliced weight arrays are new arrays,
+                # which the library's == (identity of arrays) would call different
+                rep.bad(esite, 'space_differs', 'x%s.space = %r differs from space%s = %r'
+                        % (lab, y.space, lab, R))
         # commutation with the conversion to an array (power spaces)
         if power and (not isinstance(idx, tuple) or len(idx) <= arr.ndim):
             st3, exp = _try(lambda: arr[tuple(idx) if isinstance(idx, tuple) else idx])
@@ -1629,6 +1632,10 @@ def _run_index_pspace(cfg, recipe, rep):
                 continue
             st4, g = _try(lambda: np.asarray(y.asarray()))
             if st4 == 'exc':
+                # asarray is refused when the factors of the result are not ==-equal (e.g. sliced
+                # weight arrays are new objects): stack the parts ourselves
+                st4, g = _try(lambda: np.asarray(_stack(_flat_parts(y))))
+            if st4 == 'exc':
                 rep.bad(esite, 'raises:' + type(g).__name__, 'x%s.asarray() raises %r' % (lab, g))
                 continue
             # an integer at the innermost level keeps a length-1 axis (code comment): accepted
@@ -1640,6 +1647,18 @@ def _run_index_pspace(cfg, recipe, rep):
                         'x%s.asarray() = %s (shape %s) but x.asarray()%s = %s (shape %s)'
                         % (lab, g.tolist(), g.shape, lab, exp.tolist(), exp.shape))
     return rep
+
+
+def _same_pspace(A, B):
+    if A is B:
+        return True
+    if isinstance(A, odl.ProductSpace) != isinstance(B, odl.ProductSpace):
+        return False
+    if not isinstance(A, odl.ProductSpace):
+        return _eq(A, B) is True
+    return (len(A) == len(B) and field_name(A) == field_name(B)
+            and wdesc(A.weighting) == wdesc(B.weighting)
+            and all(_same_pspace(a, b) for a, b in zip(A.spaces, B.spaces)))
 
 
 def _scal_eq(y, exp):
